@@ -33,6 +33,8 @@ func runC16(c *Ctx) {
 	ruleFillValue(c)
 	R.Rule("R-recipients-as-accepted", "E1/E2", "the client records a recipient exactly when the server accepted its RCPT: Close waits for one LMTP reply per recorded recipient and returns their verdicts", 2)
 	ruleRcptsRecorded(c)
+	R.Rule("R-client-parse", "E4 + who-may-call", "the verdict Close returns is the server's reply converted by readResponse/toSMTPErr: code, enhanced code and the text with the per-line code repetitions removed", 4)
+	ruleClientParse(c)
 
 	R.Rule("R-data-writer", "E4 value flow", "Data/LMTPData return a dataCloser around c.text.DotWriter() obtained on the nil-error edge of the DATA command expecting 354", 4)
 	for _, fn := range []string{"(*Client).Data", "(*Client).LMTPData"} {
